@@ -31,6 +31,13 @@ One more comes from harness/history_defaults.py: DEFAULT VALUES of user styleshe
 colours, fields, function calls), the snippet named without a value through ONE cache dict shared by configurations with
 equal snippets and differing number-writing options (stylesheet.unitAliases / intUnit / floatUnit / unitless / shortHex).
 
+Two more come from harness/history_optvals.py: OPTION VALUES IN EVERY ACCEPTED SHAPE (list-valued options written as one
+string / empty / one name, switches written as 0 / 1 / '' / 'yes' / None, empty tables) through ONE caller-owned Config
+object used for several calls, and MARKUP CONFIGURATIONS THAT SHARE ONE CACHE DICT while differing in one option of
+every family that shapes markup output (comment.*, output.*, markup.*, bem.*, jsx), in syntax, snippets, variables,
+context or text.  Calls whose option values are not of the documented type are judged by the oracle and the history
+state machine only (the pipeline models take options of the documented types).
+
 C08_SKIP_CORPUS=1 leaves the committed corpus out (sanity runs that must find a defect from generated input)."""
 import glob
 import json
@@ -44,6 +51,7 @@ import history_nested as hn
 import history_classes as hc
 import history_routes as hr
 import history_defaults as hd
+import history_optvals as ho
 
 KEYS_SUPPORT = ('objects-kept-alive',)
 
@@ -239,6 +247,8 @@ def encode_markup_history(h, r):
             continue
         if '@global' in spec or '@gref' in spec or '@tabstop' in json.dumps(spec.get('options') or {}):
             continue
+        if not ho.documented_types(spec.get('options')):
+            continue   # an option value of another type than the documented one: oracle + state tie only
         clean = {kk: v for kk, v in spec.items() if kk not in ('cache', '@global', '@gref')}
         if mu.mentions_lorem(c['abbr'], clean):
             continue
@@ -331,6 +341,8 @@ def encode_css_history(h):
             tab = True
         if any(o not in su.OPTION_OV for o in opts):
             return None
+        if not ho.documented_types(opts):
+            return None   # an option value of another type than the documented one: oracle + state tie only
         ctxd = spec.get('context')
         cfg = su.Cfg(spec.get('syntax') or 'css', opts, spec.get('snippets') or {}, ctxd['name'] if ctxd else None, tab)
         cache = spec.get('cache') if c['via'] != 'nocache' else None
@@ -493,6 +505,18 @@ def cover_history(ctx, h, r):
     for c, rec in zip(seq, r['history'].get('calls', [])):
         if rec['kind'] == 'stylesheet' and hd.names_default(h, c):
             ctx.cover('stylesheet_call_writes_a_snippet_default_value_%s' % rec['out'][0])
+    for bucket, uses in ho.option_shapes(h):
+        ctx.cover('option_' + bucket)
+        if uses >= 2:
+            ctx.cover('option_%s_through_one_config_object_used_%s_times' % (bucket, '2' if uses == 2 else '3_or_more'))
+            if not bucket.endswith('_written_as_list'):
+                nt = True
+    n_mkc, fams = ho.markup_cache_sharing(h)
+    if n_mkc >= 2:
+        ctx.cover('one_cache_dict_used_by_%s_differing_markup_configurations' % ('2' if n_mkc == 2 else '3_or_more'))
+        for f in sorted(fams):
+            ctx.cover('markup_configurations_on_one_cache_dict_differ_in_' + f)
+        nt = True
     if h.get('globals'):
         nsyn, both = hc.global_layering(h)
         ctx.cover('shared_global_config_passed_with_%d_syntaxes' % min(nsyn, 4))
@@ -570,6 +594,14 @@ def gen(ctx):
     if not os.environ.get('C08_ONLY_RANDOM'):
         hs += [('twostep-pair', h) for h in hr.two_step_pair_histories()]
     hs += [('twostep-random', hr.rand_two_step_history(rng)) for _ in range(36 if ctx.tier == 'quick' else 1100)]
+    # option values in every accepted shape through reused Config objects (harness/history_optvals.py)
+    if not os.environ.get('C08_ONLY_RANDOM'):
+        hs += [('optshape-pair', h) for h in ho.option_shape_pair_histories()]
+    hs += [('optshape-random', ho.rand_option_shape_history(rng)) for _ in range(30 if ctx.tier == 'quick' else 900)]
+    # markup configurations that share one cache dict and differ in one option family / syntax / snippets / variables / text
+    if not os.environ.get('C08_ONLY_RANDOM'):
+        hs += [('mkcache-pair', h) for h in ho.markup_cache_pair_histories()]
+    hs += [('mkcache-random', ho.rand_markup_cache_history(rng)) for _ in range(40 if ctx.tier == 'quick' else 1200)]
     return hs
 
 
@@ -633,7 +665,27 @@ def run(ctx):
         'stylesheet.unitAliases / intUnit / floatUnit / unitless / shortHex / output.field (same dict, equal copy, Config '
         'object, no cache; per default value every option set of a fixed ring of 4 is the first caller of the cache in some '
         'history + random tables, option sets and histories of 1..6 calls; a fixed share goes through the stylesheet '
-        'pipeline model).  The calls with a global '
+        'pipeline model); OPTION VALUES IN EVERY ACCEPTED SHAPE THROUGH REUSED CONFIGURATIONS (harness/history_optvals.py): the '
+        'options whose documented value is a list of names (inlineElements, output.formatSkip, output.formatForce, '
+        'output.booleanAttributes, comment.trigger, stylesheet.keywords, stylesheet.unitless) written as a list, a list in another '
+        'order, a one-name list, an empty list and as ONE string (space-, comma-, comma+space-, newline-separated, stray white '
+        'space, one name, empty), switches written as 0 / 1 / \'\' / \'yes\' / None, output.inlineBreak 0, empty tables for '
+        'markup.attributes / markup.valuePrefix / stylesheet.unitAliases; per option and shape ONE caller-owned Config object '
+        'used for the same abbreviation twice, another one and the first again, next to the dict it was built from and an equal '
+        'copy, abbreviations on which the option is visible (one family per option x shape + random histories of 2..6 calls '
+        'with 1..3 such options per configuration, random subsets of the names, raising calls in between; '
+        'option_<name>_written_as_<shape>_through_one_config_object_used_N_times counts them); MARKUP CONFIGURATIONS THAT SHARE ONE '
+        'CACHE DICT: markup configurations with `cache` that differ in one option of every family that shapes markup output '
+        '(comment.enabled / before / after / trigger incl. \'\' and None to switch a part off; output.indent / newline / '
+        'baseIndent / format / formatLeafNode / formatSkip / formatForce / inlineBreak / inlineElements; tagCase / attributeCase / '
+        'attributeQuotes / selfClosingStyle / compactBoolean / booleanAttributes / reverseAttributes / markup.attributes / '
+        'markup.valuePrefix / markup.href / jsx.enabled / output.field; bem.*) or in syntax, snippets, variables, context, text: '
+        'per variant defaults-first (the first caller passes no option at all) and variant-first, per family every rotation of '
+        'the ring of its variants (every variant once the FIRST caller of the cache dict), every third ring with a stylesheet '
+        'configuration on the same cache dict in between, + random histories of 1..6 calls over 2..4 random combinations, same '
+        'dict / equal copy / Config object / no cache.  Calls whose option values are not of the documented type are judged by '
+        'the oracle and the history state machine only (the pipeline models take options of the documented types); the '
+        'markup calls of the cache-sharing histories go through the markup pipeline model.  The calls with a global '
         'configuration are judged by the oracle and the state tie only (the pipeline models take a resolved configuration '
         'without global layers); a fixed share of the function-call histories and of the reordered / case-variant histories goes '
         'through the stylesheet pipeline model (a reordered call is an equal copy to the models); histories with two-step calls '
@@ -644,7 +696,8 @@ def run(ctx):
         'the mappings in the written order (both pristine); write-out number n of a caller-owned tree = the same tree parsed and '
         'written out once in a pristine process, and parse + one write-out with one configuration = expand() of it (pristine); weak '
         'containers of emmet.* are judged when the caller has dropped its trees (their entries are keyed by nodes the caller holds).  '
-        'non-trivial = a tree written out twice or more, or a reordered configuration whose tables hold names differing only in '
+        'non-trivial = a tree written out twice or more, or one cache dict used by two or more differing markup configurations, '
+        'or a Config object used twice or more whose list-valued / switch option is written in another shape than its documented type, or a reordered configuration whose tables hold names differing only in '
         'letter case, or a history in which one cache dict is used '
         'by configurations with different snippets or options, or a call raises on a configuration with text, or one global '
         'configuration object that defines a key on both levels is passed with calls of two or more syntaxes; distinct by content.')
